@@ -1432,19 +1432,26 @@ theorem C11_witness_oflow_2gib :
   · rfl
   · exact ⟨_, rfl⟩
 
-/-- **Defect witness (WTF-8 validation).**  The model of `WTF8::validate` — faithful to `fmt.rs` —
-accepts byte strings that are not WTF-8: after a complete 2- or 3-byte character a stray
-continuation byte makes `futf::classify` answer with the *previous* character (found by its
-backward scan), the loop then advances by that character's length and skips whatever follows.
-`C2 80 80` is accepted although it is not even generalized UTF-8 (and contains no surrogate, so
-WTF-8 and UTF-8 validity coincide: `validUtf8` rejects it), and so is `C2 80 80 FF`, although `FF`
-is no UTF-8 byte at all.  Hence `try_from_byte_slice` / `try_push_bytes` on a `Tendril<WTF8>` do
-not fail "exactly when the bytes would break the format"; this is why WTF-8 has no `Laws`
-instance.  Confirmed on the real code (case `tendril wtf8 N from 0 c2 80 80`). -/
-theorem C11_witness_wtf8_validate :
-    Format.wtf8.validate [0xC2, 0x80, 0x80] = true ∧ validUtf8 [0xC2, 0x80, 0x80] = false ∧
-    Format.wtf8.validate [0xC2, 0x80, 0x80, 0xFF] = true ∧ byteK 0xFF = none ∧
-    Format.wtf8.validate [0xE2, 0x82, 0xAC, 0x80, 0xFF, 0xFF] = true := by decide
+/-- **WTF-8 validation rejects stray continuation bytes** (after the fix 218f57f in `fmt.rs`, which
+the model follows: `codept.rewind != 0 → false`).  The inputs that witnessed the defect are
+rejected now. -/
+theorem C11_wtf8_validate_rejects_stray :
+    Format.wtf8.validate [0xC2, 0x80, 0x80] = false ∧
+    Format.wtf8.validate [0xC2, 0x80, 0x80, 0xFF] = false ∧
+    Format.wtf8.validate [0xE2, 0x82, 0xAC, 0x80, 0xFF, 0xFF] = false ∧
+    Format.wtf8.validate [0xC2, 0x80, 0xED, 0xA0, 0x80, 0xE2, 0x82, 0xAC] = true := by decide
+
+/-- **Defect witness, pinned tree.**  `WTF8::validate` as it was before commit 218f57f
+(`wtf8ValidatePinned`) accepted byte strings that are not WTF-8: after a complete 2- or 3-byte
+character a stray continuation byte made `futf::classify` answer with the *previous* character
+(found by its backward scan), the loop advanced by that character's length and skipped whatever
+followed.  `C2 80 80` was accepted although it is not even generalized UTF-8 (no surrogate
+involved, `validUtf8` rejects it), and so was `C2 80 80 FF`, although `FF` is no UTF-8 byte at all.
+Found by the C11 check (case `tendril wtf8 N from 0 c2 80 80`, now in the regression corpus). -/
+theorem C11_witness_wtf8_validate_pinned :
+    wtf8ValidatePinned [0xC2, 0x80, 0x80] = true ∧ validUtf8 [0xC2, 0x80, 0x80] = false ∧
+    wtf8ValidatePinned [0xC2, 0x80, 0x80, 0xFF] = true ∧ byteK 0xFF = none ∧
+    wtf8ValidatePinned [0xE2, 0x82, 0xAC, 0x80, 0xFF, 0xFF] = true := by decide
 
 /-! ## non-vacuity -/
 
